@@ -286,7 +286,24 @@ func freshProgs() []Case {
 		}
 		return "array[" + strings.Join(s, ",") + "]"
 	}
-	return []Case{
+	// a module whose top-level function calls itself through the module-level variable it is bound to (the
+	// closure captures its own, not yet assigned, variable): every evaluation must get its own cell
+	const rec = "n := 0\nstep := func(k) {\n\tif k == 0 {\n\t\treturn 0\n\t}\n\tn += 1\n\treturn step(k - 1) + 1\n}\nexport {step: step, count: func() { return n }}\n"
+	recCases := []Case{
+		P("recursive/two-import-expressions", "a := import(\"rec\")\nb := import(\"rec\")\nx := a.step(3)\ny := b.step(1)\nr := [x, y, a.count(), b.count()]\n",
+			map[string]string{"r": arr(3, 1, 3, 1)}, 0, mods("rec", rec)),
+		P("recursive/import-in-loop-kept", "ms := []\nfor i := 0; i < 2; i++ {\n\tms = append(ms, import(\"rec\"))\n}\nx := ms[0].step(2)\nr := [x, ms[0].count(), ms[1].count()]\nms = undefined\n",
+			map[string]string{"r": arr(2, 2, 0)}, 0, mods("rec", rec)),
+		P("recursive/import-in-func-called-twice", "g := func() { return import(\"rec\") }\na := g()\nb := g()\nx := a.step(3)\nr := [x, a.count(), b.count()]\n",
+			map[string]string{"r": arr(3, 3, 0)}, 0, mods("rec", rec)),
+		P("recursive/after-captured-local-of-importer", "g := func() {\n\tb := 5\n\th := func() { return b }\n\tm := import(\"rec\")\n\tx := m.step(2)\n\treturn [h(), x, m.count()]\n}\nr := g()\n",
+			map[string]string{"r": arr(5, 2, 2)}, 0, mods("rec", rec)),
+		P("recursive/block-local-of-importer-before", "r := undefined\nif true {\n\tb := 5\n\th := func() { return b }\n\tr = [h()]\n}\nm := import(\"rec\")\nx := m.step(2)\nr = r + [x, m.count()]\n",
+			map[string]string{"r": arr(5, 2, 2)}, 0, mods("rec", rec)),
+		P("recursive/via-wrapper-module-twice", "a := import(\"w\")\nb := import(\"w\")\nx := a.step(2)\nr := [x, a.count(), b.count()]\n",
+			map[string]string{"r": arr(2, 2, 0)}, 0, mods("rec", rec, "w", "f := func() { return import(\"rec\") }\nexport f()\n")),
+	}
+	return append(recCases, []Case{
 		P("counter/two-import-expressions", "a := import(\"cnt\")\nb := import(\"cnt\")\nr := [a.inc(), a.inc(), b.inc(), a.inc()]\n",
 			map[string]string{"r": arr(1, 2, 1, 3)}, 0, mods()),
 		P("counter/import-in-loop", "r := []\nfor i := 0; i < 3; i++ {\n\tm := import(\"cnt\")\n\tr = append(r, m.inc())\n}\n",
@@ -324,7 +341,7 @@ func freshProgs() []Case {
 			mods("w1", "export import(\"t\")\n", "w2", "export import(\"t\")\n")),
 		P("body-runs/unreached-import-in-module", "a := import(\"w\")\n", map[string]string{"a": "int:2"}, 0,
 			mods("w", "export 2\nimport(\"t\")\n")),
-	}
+	}...)
 }
 
 // ---- immutability ----------------------------------------------------------------
